@@ -13,6 +13,7 @@ applies the same rules (see checks/c01_rectangular.py, part "reshape").
 Oracle: list-of-columns model on plain Python values.
 """
 
+import datetime
 import itertools
 import numpy as np
 
@@ -236,6 +237,10 @@ def as_map(pairs):
     return {k: v for k, v in pairs}
 
 
+class Tag(str):
+    """A str subclass (scalar values of such types are scalars)."""
+
+
 def compare(out, expect_pairs, ordered, rec, op, case, detail=""):
     names = list(out.keys())
     enames = [k for k, _ in expect_pairs]
@@ -319,6 +324,12 @@ def apply_and_check(op, arg, cols, rec, grouped=False):
             newvals = [1000 + i for i in range(n)]
             if form == "scalar":
                 val, ev = 7, [7] * n
+            elif form == "scalar_str":
+                val, ev = "ab", ["ab"] * n
+            elif form == "scalar_strsub":
+                val, ev = Tag("red"), ["red"] * n   # an instance of a str subclass (what enum.StrEnum members are)
+            elif form == "scalar_date":
+                val, ev = datetime.date(2020, 2, 29), [datetime.date(2020, 2, 29)] * n
             elif form == "len1":
                 val, ev = [7], [7] * n
             elif form == "vector":
@@ -331,7 +342,7 @@ def apply_and_check(op, arg, cols, rec, grouped=False):
                 val, ev, reject = list(range(n + 2)), None, True
             elif form in ("swap", "read-old"):
                 val, ev = None, None
-            if n == 0 and form in ("scalar", "len1"):
+            if n == 0 and form in ("scalar", "len1", "scalar_str", "scalar_strsub", "scalar_date"):
                 return  # scalar broadcast onto a zero-row frame is unspecified (DESIGN 3.5)
             if form == "swap":
                 # two pairs in one call, both callables: each sees the ORIGINAL frame, so this swaps the columns
@@ -371,6 +382,19 @@ def apply_and_check(op, arg, cols, rec, grouped=False):
     rec.state(V.frame_key(out))
     if not compare(out, expect, ordered, rec, op, case):
         return
+    if op == "modify" and arg[1] in ("scalar_str", "scalar_strsub", "scalar_date") and n >= 1:
+        # the new column is a column like one built from a list of such values: a date column is a datetime
+        # column, and a string column can hold a longer string later
+        col = out[arg[0]]
+        if arg[1] == "scalar_date":
+            if not str(col.dtype).startswith("datetime64"):
+                rec.violation(op, "scalar-column-type", case, f"a column filled with a datetime.date has dtype {col.dtype}")
+                return
+        else:
+            col[0] = "longer than two"
+            if V.cells(col)[0] != "longer than two":
+                rec.violation(op, "scalar-column-type", case, f"a column filled with a string (dtype {col.dtype}) cut a longer string stored later to {V.cells(col)[0]!r}")
+                return
     rec.outcome((op, tuple(out.keys())))
     if not inplace and V.frame_key(d) != before:
         rec.violation(op, "receiver-changed", case, "receiver changed")
@@ -417,7 +441,7 @@ def args_for(op, cols):
                            [["z", "str", [f"B{i}" for i in range(n)]], ["y", "i8", [600 + i for i in range(n)]], [names[0], "i8", [700 + i for i in range(n)]]]]}
     elif op == "modify":
         for target in [names[0], names[-1], "new"]:
-            for form in ("scalar", "len1", "vector", "list", "callable", "wrong"):
+            for form in ("scalar", "len1", "vector", "list", "callable", "wrong", "scalar_str", "scalar_strsub", "scalar_date"):
                 yield [target, form]
         yield ["-", "swap"]
         yield ["-", "read-old"]
